@@ -228,6 +228,14 @@ def _component_aware(ctx, f, arg):
     if isinstance(a, ast.BinOp) and isinstance(a.op, ast.Add):
         r = ctx.fold(a.right, f)
         if r in ("/", "\\") or canon(a.right) in ("os.sep", "os.path.sep"):
+            # `x + sep` doubles the separator when x already ends with one ('data/' + '/'); only os.path.join(x, '') never does.
+            # Fine when x is the result of a normalising call (realpath / abspath / normpath / dirname never end in a separator, except the root).
+            left = a.left
+            if isinstance(left, ast.Call) and (common.ext_name(ctx, f, left) in ("os.path.realpath", "os.path.abspath", "os.path.normpath", "os.path.dirname", "os.getcwd")
+                                               or (isinstance(left.func, ast.Attribute) and left.func.attr in ("rstrip",))):
+                return True
+            if isinstance(left, ast.Name) and left.id in f.params:
+                return "doubles"
             return True
     if isinstance(a, ast.Call) and common.ext_name(ctx, f, a) == "os.path.join" and a.args and ctx.fold(a.args[-1], f) == "":
         return True
@@ -249,7 +257,10 @@ def c16_c(ctx: Ctx):
                 if ca is None:
                     continue
                 n_tests += 1
-                if ca:
+                if ca == "doubles":
+                    out.append(ctx.viol(R, f, n, f"{canon(n)[:80]}: the prefix is built by appending a separator to a path taken as the caller typed it; when that path already ends with a "
+                                        "separator ('data/') the prefix becomes 'data//' and nothing below the directory is recognised as contained (os.path.join(p, '') never doubles)"))
+                elif ca:
                     out.append(ctx.ok(R, f, n, f"prefix test against a path that ends with a separator: {canon(n)[:70]}"))
                 else:
                     out.append(ctx.viol(R, f, n, f"{canon(n)[:80]} compares paths as text: a sibling whose name merely starts with the same characters ('a/1' vs 'a/10', "
